@@ -9,6 +9,9 @@ const SECOND_PER_DAY: u64 = Second::per(Day) as u64;
 const SECOND_PER_HOUR: u64 = Second::per(Hour) as u64;
 const SECOND_PER_MINUTE: u64 = Second::per(Minute) as u64;
 
+const NANOS_PER_SECOND: i128 = 1_000_000_000;
+const NANOS_PER_MILLISECOND: i128 = 1_000_000;
+
 // See section 2.2.2
 #[derive(Debug, PartialEq, Clone)]
 pub struct DurationLiteral {
@@ -17,27 +20,42 @@ pub struct DurationLiteral {
 }
 
 impl DurationLiteral {
+    /// Create a new `DurationLiteral` from a number of units where each
+    /// unit is the specified number of nanoseconds.
+    ///
+    /// The interval is exact to the nanosecond (the resolution of the interval).
+    /// Returns an error if the value is not in the range of the interval.
+    fn from_units(value: FixedPoint, nanos_per_unit: i128) -> Result<Self, &'static str> {
+        // The whole and the fraction are each at most 64 bits and the number of
+        // nanoseconds per unit is at most 47 bits so this arithmetic cannot overflow.
+        let whole_nanos = value.whole as i128 * nanos_per_unit;
+        let fraction_nanos =
+            value.femptos as i128 * nanos_per_unit / FixedPoint::FRACTIONAL_UNITS as i128;
+        let nanos = whole_nanos + fraction_nanos;
+
+        let seconds = nanos / NANOS_PER_SECOND;
+        if seconds > i64::MAX as i128 {
+            return Err("duration out of range");
+        }
+        let subsec_nanos = nanos % NANOS_PER_SECOND;
+
+        Ok(Self {
+            span: value.span,
+            interval: Duration::new(seconds as i64, subsec_nanos as i32),
+        })
+    }
+
     /// Create a new `DurationLiteral` with the given number of days.
     ///
     /// ```rust
     /// use ironplc_dsl::common::FixedPoint;
     /// use ironplc_dsl::time::DurationLiteral;
     /// use time::Duration;
-    /// assert_eq!(DurationLiteral::days(FixedPoint::parse("1").unwrap()).interval, Duration::days(1));
+    /// assert_eq!(DurationLiteral::days(FixedPoint::parse("1").unwrap()).unwrap().interval, Duration::days(1));
+    /// assert_eq!(DurationLiteral::days(FixedPoint::parse("0.5").unwrap()).unwrap().interval, Duration::hours(12));
     /// ```
-    pub fn days(days: FixedPoint) -> Self {
-        // The whole part is entirely seconds
-        let whole_seconds = Duration::days(days.whole as i64);
-
-        // The fraction has both seconds and one part femptoseconds
-        let fraction_seconds = Duration::microseconds(
-            (days.femptos * SECOND_PER_DAY / FixedPoint::FRACTIONAL_UNITS) as i64,
-        );
-
-        Self {
-            span: days.span,
-            interval: whole_seconds + fraction_seconds,
-        }
+    pub fn days(days: FixedPoint) -> Result<Self, &'static str> {
+        Self::from_units(days, SECOND_PER_DAY as i128 * NANOS_PER_SECOND)
     }
 
     /// Create a new `DurationLiteral` with the given number of hours.
@@ -46,22 +64,11 @@ impl DurationLiteral {
     /// use ironplc_dsl::common::FixedPoint;
     /// use ironplc_dsl::time::DurationLiteral;
     /// use time::Duration;
-    /// assert_eq!(DurationLiteral::seconds(FixedPoint::parse("1").unwrap()).interval, Duration::seconds(1));
-    /// assert_eq!(DurationLiteral::seconds(FixedPoint::parse("1.001").unwrap()).interval, Duration::seconds(1) + Duration::milliseconds(1));
+    /// assert_eq!(DurationLiteral::hours(FixedPoint::parse("1").unwrap()).unwrap().interval, Duration::hours(1));
+    /// assert_eq!(DurationLiteral::hours(FixedPoint::parse("1.5").unwrap()).unwrap().interval, Duration::minutes(90));
     /// ```
-    pub fn hours(hours: FixedPoint) -> Self {
-        // The whole part is entirely seconds
-        let whole_seconds = Duration::hours(hours.whole as i64);
-
-        // The fraction has both seconds and one part femptoseconds
-        let fraction_seconds = Duration::microseconds(
-            (hours.femptos * SECOND_PER_HOUR / FixedPoint::FRACTIONAL_UNITS) as i64,
-        );
-
-        Self {
-            span: hours.span,
-            interval: whole_seconds + fraction_seconds,
-        }
+    pub fn hours(hours: FixedPoint) -> Result<Self, &'static str> {
+        Self::from_units(hours, SECOND_PER_HOUR as i128 * NANOS_PER_SECOND)
     }
 
     /// Create a new `DurationLiteral` with the given number of minutes.
@@ -70,21 +77,11 @@ impl DurationLiteral {
     /// use ironplc_dsl::common::FixedPoint;
     /// use ironplc_dsl::time::DurationLiteral;
     /// use time::Duration;
-    /// assert_eq!(DurationLiteral::seconds(FixedPoint::parse("1").unwrap()).interval, Duration::seconds(1));
-    /// assert_eq!(DurationLiteral::seconds(FixedPoint::parse("1.001").unwrap()).interval, Duration::seconds(1) + Duration::milliseconds(1));
+    /// assert_eq!(DurationLiteral::minutes(FixedPoint::parse("1").unwrap()).unwrap().interval, Duration::minutes(1));
+    /// assert_eq!(DurationLiteral::minutes(FixedPoint::parse("1.5").unwrap()).unwrap().interval, Duration::seconds(90));
     /// ```
-    pub fn minutes(minutes: FixedPoint) -> Self {
-        // The whole part is entirely seconds
-        let whole_seconds = Duration::minutes(minutes.whole as i64);
-
-        // The fraction has both seconds and one part femptoseconds
-        let fraction_seconds = Duration::microseconds(
-            (minutes.femptos * SECOND_PER_MINUTE / FixedPoint::FRACTIONAL_UNITS) as i64,
-        );
-        Self {
-            span: minutes.span,
-            interval: whole_seconds + fraction_seconds,
-        }
+    pub fn minutes(minutes: FixedPoint) -> Result<Self, &'static str> {
+        Self::from_units(minutes, SECOND_PER_MINUTE as i128 * NANOS_PER_SECOND)
     }
 
     /// Create a new `DurationLiteral` with the given number of seconds.
@@ -93,16 +90,11 @@ impl DurationLiteral {
     /// use ironplc_dsl::common::FixedPoint;
     /// use ironplc_dsl::time::DurationLiteral;
     /// use time::Duration;
-    /// assert_eq!(DurationLiteral::seconds(FixedPoint::parse("1").unwrap()).interval, Duration::seconds(1));
-    /// assert_eq!(DurationLiteral::seconds(FixedPoint::parse("1.001").unwrap()).interval, Duration::seconds(1) + Duration::milliseconds(1));
+    /// assert_eq!(DurationLiteral::seconds(FixedPoint::parse("1").unwrap()).unwrap().interval, Duration::seconds(1));
+    /// assert_eq!(DurationLiteral::seconds(FixedPoint::parse("1.001").unwrap()).unwrap().interval, Duration::seconds(1) + Duration::milliseconds(1));
     /// ```
-    pub fn seconds(seconds: FixedPoint) -> Self {
-        let whole_seconds = Duration::seconds(seconds.whole as i64);
-        let fraction_seconds = Duration::nanoseconds((seconds.femptos / 1_000_000) as i64);
-        Self {
-            span: seconds.span,
-            interval: whole_seconds + fraction_seconds,
-        }
+    pub fn seconds(seconds: FixedPoint) -> Result<Self, &'static str> {
+        Self::from_units(seconds, NANOS_PER_SECOND)
     }
 
     /// Create a new `DurationLiteral` with the given number of milliseconds.
@@ -111,27 +103,26 @@ impl DurationLiteral {
     /// use ironplc_dsl::common::FixedPoint;
     /// use ironplc_dsl::time::DurationLiteral;
     /// use time::Duration;
-    /// assert_eq!(DurationLiteral::milliseconds(FixedPoint::parse("1").unwrap()).interval, Duration::milliseconds(1));
-    /// assert_eq!(DurationLiteral::milliseconds(FixedPoint::parse("1000").unwrap()).interval, Duration::seconds(1));
-    /// assert_eq!(DurationLiteral::milliseconds(FixedPoint::parse("1001").unwrap()).interval, Duration::seconds(1) + Duration::milliseconds(1));
-    /// assert_eq!(DurationLiteral::milliseconds(FixedPoint::parse("0.001").unwrap()).interval, Duration::microseconds(1));
+    /// assert_eq!(DurationLiteral::milliseconds(FixedPoint::parse("1").unwrap()).unwrap().interval, Duration::milliseconds(1));
+    /// assert_eq!(DurationLiteral::milliseconds(FixedPoint::parse("1000").unwrap()).unwrap().interval, Duration::seconds(1));
+    /// assert_eq!(DurationLiteral::milliseconds(FixedPoint::parse("1001").unwrap()).unwrap().interval, Duration::seconds(1) + Duration::milliseconds(1));
+    /// assert_eq!(DurationLiteral::milliseconds(FixedPoint::parse("0.001").unwrap()).unwrap().interval, Duration::microseconds(1));
     /// ```
-    pub fn milliseconds(millis: FixedPoint) -> Self {
-        let whole_seconds = Duration::seconds((millis.whole / 1_000) as i64);
-        let whole_milliseconds = Duration::milliseconds((millis.whole % 1_000) as i64);
-
-        let fraction_nanoseconds = Duration::nanoseconds((millis.femptos / 1_000_000_000) as i64);
-        Self {
-            span: millis.span,
-            interval: whole_seconds + whole_milliseconds + fraction_nanoseconds,
-        }
+    pub fn milliseconds(millis: FixedPoint) -> Result<Self, &'static str> {
+        Self::from_units(millis, NANOS_PER_MILLISECOND)
     }
 
-    pub fn plus(&self, other: DurationLiteral) -> Self {
-        DurationLiteral {
+    /// Returns the sum of this duration and the other duration or an
+    /// error if the sum is not in the range of the interval.
+    pub fn plus(&self, other: DurationLiteral) -> Result<Self, &'static str> {
+        let interval = self
+            .interval
+            .checked_add(other.interval)
+            .ok_or("duration out of range")?;
+        Ok(DurationLiteral {
             span: SourceSpan::join(&self.span, &other.span),
-            interval: self.interval + other.interval,
-        }
+            interval,
+        })
     }
 }
 
